@@ -28,6 +28,7 @@ static struct rng_ctx rng_a, rng_b;
 #define RNG (*current_lp->rng_ctx)
 
 static FILE *f_ops, *f_c, *f_or;
+static unsigned long n_crafted_random;
 static unsigned long n_lines, n_recv_fixed, n_recv_random, n_count, n_isnb, n_link, n_init, n_topologies,
     n_sources, n_oracle_checks, n_purity_checks, n_viol, n_thread_checks;
 static unsigned long per_geom_random[9], per_geom_sources[9];
@@ -169,6 +170,21 @@ static unsigned precompute(lp_id_t src, char *out)
 	return k;
 }
 
+/* boundary generator states: the next raw output is 0 (Random() == 0.0), the smallest / largest values, or a dyadic fraction
+ * k/4, k/8 (products with the number of candidates are exact integers); xoshiro's output function rotl(s1 * 5, 7) * 9 is
+ * inverted on state[1]. Called by the callers of op_recv BEFORE they snapshot the generator. */
+static void maybe_craft(void)
+{
+	if(vrng_below(4))
+		return;
+	static const uint64_t B[] = {0, 0, 2, 3, ~0ull, ~0ull - 1, 1ull << 63, 1ull << 62, 3ull << 62, 1ull << 61, 5ull << 61,
+	    (1ull << 63) - 1, (1ull << 63) + 1, 1ull << 11, 1};
+	uint64_t u = B[vrng_below(sizeof(B) / sizeof(*B))];
+	uint64_t x = 0x8E38E38E38E38E39ull * u;
+	RNG.state[1] = 0xCCCCCCCCCCCCCCCDull * ((x >> 7) | (x << 57));
+	n_crafted_random++;
+}
+
 static lp_id_t op_recv(lp_id_t src, int d)
 {
 	char rin[1024];
@@ -273,8 +289,11 @@ static void query_source(lp_id_t src, bool all_targets)
 	n_sources++;
 	per_geom_sources[G]++;
 	seed_rng();
-	for(int i = 0; i < ND; ++i)
+	for(int i = 0; i < ND; ++i) {
+		if(dirs[i] == DIRECTION_RANDOM)
+			maybe_craft();
 		res[i] = op_recv(src, dirs[i]);
+	}
 	if(G == TOPOLOGY_GRAPH && src >= R)
 		return; /* adjacency[from] out of bounds: outside the API contract */
 	lp_id_t cnt = op_count(src);
@@ -360,12 +379,14 @@ static void purity_probe(lp_id_t src, unsigned interference)
 	n_purity_checks++;
 	current_lp = &lp_a;
 	seed_rng();
+	maybe_craft();
 	struct rng_ctx s0 = RNG;
 	lp_id_t r1 = op_recv(src, DIRECTION_RANDOM);
 	struct rng_ctx post1 = RNG;
 	current_lp = &lp_b; /* another LP, own generator */
 	for(unsigned i = 0; i < interference; ++i) {
 		seed_rng();
+		maybe_craft();
 		op_recv(vrng_below(R), DIRECTION_RANDOM);
 	}
 	current_lp = &lp_a;
@@ -636,11 +657,11 @@ int main(int argc, char **argv)
 	 * in a state no sequential model explains) */
 	thread_phase(thread_iters);
 
-	printf("{\"lines\":%lu,\"topologies\":%lu,\"init_calls\":%lu,\"sources\":%lu,\"recv_fixed\":%lu,\"recv_random\":%lu,"
+	printf("{\"lines\":%lu,\"topologies\":%lu,\"init_calls\":%lu,\"sources\":%lu,\"recv_fixed\":%lu,\"recv_random\":%lu,\"recv_random_crafted_boundary_state\":%lu,"
 	       "\"count\":%lu,\"isnb\":%lu,\"link\":%lu,\"oracle_checks\":%lu,\"purity_checks\":%lu,\"thread_checks\":%lu,"
 	       "\"oracle_violations\":%lu,\"fix_count\":%d,\"fix_star\":%d,\"fix_shuffle\":%d,"
 	       "\"random_by_geometry\":{",
-	    n_lines, n_topologies, n_init, n_sources, n_recv_fixed, n_recv_random, n_count, n_isnb, n_link,
+	    n_lines, n_topologies, n_init, n_sources, n_recv_fixed, n_recv_random, n_crafted_random, n_count, n_isnb, n_link,
 	    n_oracle_checks, n_purity_checks, n_thread_checks, n_viol, fix_count, fix_star, fix_shuf);
 	for(int g = 1; g <= 8; ++g)
 		printf("\"%s\":%lu%s", GN[g], per_geom_random[g], g < 8 ? "," : "},\"sources_by_geometry\":{");
